@@ -31,8 +31,11 @@ type action struct {
 	overwrite bool
 	keepGoing bool
 	ts        time.Time
-	serial    int64 // rotate override
+	serial    *big.Int // rotate override
 	cn        string
+	rootCN    string
+	rootSer   *big.Int // bootstrap: root serial (nil = the default 1)
+	signSer   *big.Int // bootstrap: first signing serial (nil = the default 2)
 	wipeCA    bool
 	wipeKeys  bool
 }
@@ -84,9 +87,15 @@ func actions(r *mc.Run) []action {
 			case e == "--keep_going":
 				a.keepGoing = true
 			case strings.HasPrefix(e, "--rotated_key_serial_override="):
-				fmt.Sscanf(strings.TrimPrefix(e, "--rotated_key_serial_override="), "%d", &a.serial)
+				a.serial, _ = new(big.Int).SetString(strings.TrimPrefix(e, "--rotated_key_serial_override="), 10)
 			case strings.HasPrefix(e, "--signing_key_cn="):
 				a.cn = strings.TrimPrefix(e, "--signing_key_cn=")
+			case strings.HasPrefix(e, "--root_key_cn="):
+				a.rootCN = strings.TrimPrefix(e, "--root_key_cn=")
+			case strings.HasPrefix(e, "--root_key_serial="):
+				a.rootSer, _ = new(big.Int).SetString(strings.TrimPrefix(e, "--root_key_serial="), 10)
+			case strings.HasPrefix(e, "--initial_signing_key_serial="):
+				a.signSer, _ = new(big.Int).SetString(strings.TrimPrefix(e, "--initial_signing_key_serial="), 10)
 			case e == "ca":
 				a.wipeCA = true
 			case e == "keys":
@@ -108,6 +117,10 @@ func actions(r *mc.Run) []action {
 		// late in the root's 25-year validity: the signing lifetime then extends past the root's end
 		mk("rotate --overwrite +21y", "rotate", t0.Add(21*365*24*time.Hour), "--overwrite"),
 		mk("rotate serial=7 (leap window)", "rotate", time.Date(2043, 9, 1, 12, 0, 0, 0, time.UTC), "--rotated_key_serial_override=7"),
+		// a serial beyond 64 bits (2^64+5): the flag takes any integer, and the default rotation after
+		// it continues from it
+		mk("rotate serial=2^64+5", "rotate", t0.Add(48*time.Hour), "--rotated_key_serial_override=18446744073709551621"),
+		mk("bootstrap --overwrite serials=2^64,2^100+7", "bootstrap", t0.Add(2*time.Hour), "--overwrite", "--root_key_serial=18446744073709551616", "--initial_signing_key_serial=1267650600228229401496703205383"),
 		mk("wipeout", "wipeout", t0),
 		mk("wipeout ca", "wipeout", t0, "ca"),
 		mk("wipeout keys", "wipeout", t0, "keys"),
@@ -131,12 +144,19 @@ func main() {
 	r.Assume("'names are not reused between wipeouts' is read with bootstrap --overwrite starting a new naming epoch, like a key wipeout (it regenerates the keys under the configured names by design)")
 	r.Assume("'issued by that root' is required of certificates minted since the latest bootstrap; older manifest entries that survive a bootstrap --overwrite are not judged")
 	defer kmfx.Cleanup()
+	kmfx.PoolKMSKeys = true // worlds are never compared with one another here
 	acts := actions(r)
 	byName := map[string]action{}
 	var names []string
+	// the quick BFS leaves the large serials to the lines below (they multiply the states)
+	large := map[string]bool{"rotate serial=2^64+5": true, "bootstrap --overwrite serials=2^64,2^100+7": true}
+	var bfsNames []string
 	for _, a := range acts {
 		byName[a.name] = a
 		names = append(names, a.name)
+		if !large[a.name] || r.Thorough() {
+			bfsNames = append(bfsNames, a.name)
+		}
 	}
 	for _, kind := range kmfx.Kinds {
 		kind := kind
@@ -153,7 +173,7 @@ func main() {
 				sort.Strings(ns)
 				return kind + "\n" + k.w.Inspect().Canon() + fmt.Sprintf("epochnames=%v", ns)
 			},
-			Actions: func(n *mc.Node) []string { return names },
+			Actions: func(n *mc.Node) []string { return bfsNames },
 			Drop:    func(s any) { s.(*kstate).w.Drop() },
 			Apply: func(n *mc.Node, an string) any {
 				id := fmt.Sprintf("kind=%s history=%s", kind, strings.Join(append(append([]string(nil), n.Hist...), an), " ; "))
@@ -189,6 +209,35 @@ func main() {
 		if b.CapHit {
 			r.Cap("BFS for " + kind + " stopped at the internal deadline")
 		}
+		if !r.Thorough() && kind == kmfx.MemMem {
+			// every three-command history that contains a large serial, one process per command (the
+			// other two kinds run them in the one-process lines below)
+			var big [][]string
+			for _, x := range names {
+				for _, y := range names {
+					for _, z := range names {
+						if (large[x] || large[y] || large[z]) && byName[x].verb == "bootstrap" {
+							big = append(big, []string{x, y, z})
+						}
+					}
+				}
+			}
+			r.ParallelFor(len(big), func(i int) {
+				node := &mc.Node{State: &kstate{w: kmfx.NewWorld(kind), names: map[string]string{}, minted: map[string]int{}, mintedAt: map[string]time.Time{}}}
+				for _, an := range big[i] {
+					id := fmt.Sprintf("kind=%s history=%s", kind, strings.Join(append(append([]string(nil), node.Hist...), an), " ; "))
+					next := step(r, kind, node, byName[an], id, false)
+					node.State.(*kstate).w.Drop()
+					if next == nil {
+						return
+					}
+					node = &mc.Node{State: next, Hist: append(node.Hist, an)}
+				}
+				node.State.(*kstate).w.Drop()
+			})
+			nl := int64(len(big))
+			r.Add("large_serial_lines_"+kind, nl)
+		}
 	}
 	// One-process lines: the BFS above rebuilds the key-manager and authority objects for every
 	// command (one process per command, as the CLI runs). Here every sequence of three commands is
@@ -200,6 +249,18 @@ func main() {
 			for _, c := range names {
 				lines = append(lines, []string{a, b, c})
 			}
+		}
+	}
+	// quick: the lines that start with a bootstrap (the others spend their first command on an empty
+	// world), plus - for the one-process worlds - every line without a large serial; thorough: all
+	startsWithBootstrap := func(seq []string) bool { return byName[seq[0]].verb == "bootstrap" }
+	var bootLines, procLines [][]string
+	for _, l := range lines {
+		if r.Thorough() || startsWithBootstrap(l) {
+			bootLines = append(bootLines, l)
+			procLines = append(procLines, l)
+		} else if !large[l[0]] && !large[l[1]] && !large[l[2]] {
+			procLines = append(procLines, l)
 		}
 	}
 	runLine := func(kind string, seq []string) {
@@ -217,6 +278,35 @@ func main() {
 		}
 		w.Drop()
 	}
+	// The Cloud KMS key manager (the production one) over the model service, with both authorities:
+	// the same three-command lines through the library calls the commands make.
+	for _, kind := range []string{kmfx.GcpMem, kmfx.GcpGcs} {
+		kind := kind
+		pfx := fmt.Sprintf("kind=%s history=", kind)
+		line := func(seq []string) {
+			node := &mc.Node{State: &kstate{w: kmfx.NewWorld(kind), names: map[string]string{}, minted: map[string]int{}, mintedAt: map[string]time.Time{}}}
+			for _, an := range seq {
+				id := pfx + strings.Join(append(append([]string(nil), node.Hist...), an), " ; ")
+				next := step(r, kind, node, byName[an], id, true)
+				if next == nil {
+					return
+				}
+				node = &mc.Node{State: next, Hist: append(node.Hist, an)}
+			}
+			node.State.(*kstate).w.Drop()
+		}
+		if r.Replaying() {
+			if strings.HasPrefix(r.ReplayID, pfx) {
+				r.Case(r.ReplayID, func() string {
+					line(strings.Split(strings.TrimPrefix(r.ReplayID, pfx), " ; "))
+					return "line re-executed"
+				})
+			}
+			continue
+		}
+		r.ParallelFor(len(bootLines), func(i int) { line(bootLines[i]) })
+		r.Add("library_lines_"+kind, int64(len(bootLines)))
+	}
 	for _, kind := range []string{kmfx.MemGcs, kmfx.LocalLocal} {
 		kind := kind
 		pfx := fmt.Sprintf("kind=%s(one-process) history=", kind)
@@ -229,10 +319,42 @@ func main() {
 			}
 			continue
 		}
-		r.ParallelFor(len(lines), func(i int) { runLine(kind, lines[i]) })
-		r.Add("one_process_lines_"+kind, int64(len(lines)))
+		r.ParallelFor(len(procLines), func(i int) { runLine(kind, procLines[i]) })
+		r.Add("one_process_lines_"+kind, int64(len(procLines)))
 	}
 	r.Finish()
+}
+
+// runCmd runs one command: through the real CLI where the world has one, and through the same
+// library calls the CLI commands make (rotate.Bootstrap, rotate.Key after NextSigningKeySerial,
+// rotate.Wipeout) for the Cloud KMS key manager, whose CLI wiring needs a live service.
+func runCmd(w *kmfx.World, a action) (err error) {
+	if w.KMS == nil {
+		return w.CLI(a.args...)
+	}
+	defer func() {
+		if x := recover(); x != nil {
+			err = fmt.Errorf("panic: %v", x)
+		}
+	}()
+	f := kmfx.Flags{Overwrite: a.overwrite, KeepGoing: a.keepGoing}
+	switch a.verb {
+	case "bootstrap":
+		o := kmfx.DefaultBootstrap(a.ts)
+		if a.cn != "" {
+			o.SignCN = a.cn
+		}
+		if a.rootCN != "" {
+			o.RootCN = a.rootCN
+		}
+		o.RootSerialBig, o.SignSerialBig = a.rootSer, a.signSer
+		return w.Bootstrap(o, f, nil)
+	case "rotate":
+		_, err := w.Rotate(kmfx.RotateOpts{Now: a.ts, CN: a.cn, SerialBig: a.serial}, f, nil)
+		return err
+	default:
+		return w.Wipeout(a.wipeCA, a.wipeKeys, f)
+	}
 }
 
 // step clones the state, runs one command through the real CLI and evaluates the invariants.
@@ -243,7 +365,7 @@ func step(r *mc.Run, kind string, n *mc.Node, a action, id string, inPlace bool)
 		k = prev.clone()
 	}
 	before := prev.w.Inspect()
-	err := k.w.CLI(a.args...)
+	err := runCmd(k.w, a)
 	after := k.w.Inspect()
 	r.Eval()
 	viol := func(what, msg string) {
@@ -339,8 +461,8 @@ func step(r *mc.Run, kind string, n *mc.Node, a action, id string, inPlace bool)
 			// Serial arithmetic.
 			if oc, nc := before.Certs[before.PrimaryName], after.Certs[np]; oc != nil && nc != nil {
 				want := new(big.Int)
-				if a.serial != 0 {
-					want.SetInt64(a.serial)
+				if a.serial != nil {
+					want.Set(a.serial)
 				} else if prevSerial, okp := new(big.Int).SetString(oc.Subject.SerialNumber, 10); okp {
 					want.Add(prevSerial, big.NewInt(1))
 				}
